@@ -11,9 +11,23 @@ import (
 type ImportNames map[string]string
 
 // NewImportNames creates a new ImportNames instance.
-func NewImportNames(specs []*ast.ImportSpec) ImportNames {
+// pkgNames optionally maps an import path to the name declared in that package's
+// package clause. Without it, the name of an import that has no alias is derived
+// from the last element of its path, which is wrong for paths such as "lib/v2"
+// or for a directory whose name differs from its package name.
+func NewImportNames(specs []*ast.ImportSpec, pkgNames ...map[string]string) ImportNames {
 	imports := make(ImportNames)
 	var noNames []string
+
+	defaultName := func(pkgPath string) string {
+		for _, names := range pkgNames {
+			if name, ok := names[pkgPath]; ok && name != "" {
+				return name
+			}
+		}
+		i := strings.LastIndex(pkgPath, "/")
+		return pkgPath[i+1:]
+	}
 
 	for _, spec := range specs {
 		pkgPath := strings.ReplaceAll(spec.Path.Value, `"`, "")
@@ -21,8 +35,7 @@ func NewImportNames(specs []*ast.ImportSpec) ImportNames {
 		if spec.Name != nil {
 			name = spec.Name.Name
 		} else {
-			i := strings.LastIndex(pkgPath, "/")
-			name = pkgPath[i+1:]
+			name = defaultName(pkgPath)
 		}
 		imports[pkgPath] = name
 		if name == "_" {
@@ -31,8 +44,7 @@ func NewImportNames(specs []*ast.ImportSpec) ImportNames {
 	}
 
 	for _, pkgPath := range noNames {
-		i := strings.LastIndex(pkgPath, "/")
-		name := pkgPath[i+1:]
+		name := defaultName(pkgPath)
 
 		dup := false
 		for p, n := range imports {
